@@ -417,7 +417,42 @@ func scopeLabel(s int) string {
 	return strings.Join(p, "+")
 }
 
-func checkCell(c Case, o *vt.Obs) error {
+// cls is the classification of an evaluated cell.
+type cls struct {
+	labels     []string
+	nontrivial bool
+	excluded   bool
+	units      int
+}
+
+func (o *cls) Label(l string)            { o.labels = append(o.labels, l) }
+func (o *cls) Labelf(f string, a ...any) { o.Label(fmt.Sprintf(f, a...)) }
+func (o *cls) NonTrivial()               { o.nontrivial = true }
+func (o *cls) Excluded()                 { o.excluded = true }
+func (o *cls) Units(n int)               { o.units += n }
+
+func (o *cls) apply(v *vt.Obs) {
+	for _, l := range o.labels {
+		v.Label(l)
+	}
+	if o.nontrivial {
+		v.NonTrivial()
+	}
+	if o.excluded {
+		v.Excluded()
+	}
+	v.Units(o.units)
+}
+
+func checkCell(c Case, v *vt.Obs) error {
+	o := &cls{}
+	err := evalCell(c, o, true)
+	o.apply(v)
+	return err
+}
+
+// evalCell runs one cell: real execution against the specification. honourKnown skips shapes of listed findings.
+func evalCell(c Case, o *cls, honourKnown bool) error {
 	w, err := getWorld()
 	if err != nil {
 		return fmt.Errorf("setup: %v", err)
@@ -435,6 +470,18 @@ func checkCell(c Case, o *vt.Obs) error {
 	signers, err := w.realSigners(c.Signers, entry)
 	if err != nil {
 		return fmt.Errorf("malformed case: %v", err)
+	}
+
+	if honourKnown && !leaf.hasCalling && vt.Known(KnownZeroCaller) {
+		// listed finding: CalledByContract(00..00) matches in a context without a calling script; that exact shape is skipped
+		for _, s := range c.Signers {
+			for _, r := range s.Rules {
+				if s.Scope&scRules != 0 && containsByHashZero(r.Cond) {
+					o.Excluded()
+					return nil
+				}
+			}
+		}
 	}
 
 	want, y := allowed(c.Signers, acct, w.envOf(leaf, entry))
@@ -455,9 +502,11 @@ func checkCell(c Case, o *vt.Obs) error {
 
 	ok := got.v == want
 	lenient := false
-	if !ok && y.emptyGroups && got.v == vFault && want == vNo {
-		// CustomGroups with an empty group list in a context without ReadStates: the reference implementation has no
-		// group to look up and answers false, a fault is not a successful witness either; both are accepted (see report).
+	if !ok && y.emptyGroups && got.v == vFault {
+		// CustomGroups with an EMPTY group list evaluated in a context without ReadStates: there is no group to look
+		// up, so the specification goes on to the rules; the implementation refuses to evaluate the scope at all. The
+		// property text does not settle this corner (the fault is never a successful witness): claimed domain restricted,
+		// both answers accepted and counted (see report).
 		ok, lenient = true, true
 	}
 	if !ok {
